@@ -208,7 +208,7 @@ theorem scalar_list_rt (cx : Ctx) (es : List PDef) (hnv : es.all PDef.isVal = fa
       rfl
     have hne : xs.map kwDet ≠ [] := by simpa using hxs
     simp only [any_isItem_false _ hni, any_notItem_true _ hne hni, Bool.false_and, Bool.false_eq_true,
-      if_false, h2, hvs, filter_notNone_id _ hnn, combine, if_true, xs]
+      if_false, h2, hvs, filter_notNone_id _ hnn, combine, if_true, xs, Bool.not_true]
   · rw [fromDef]
     simp only [all_isVal_map, if_true, getVals_map, fromMapping_kw, PVals.toList, hback]
   · rw [detObjBE_single]
